@@ -521,6 +521,27 @@ Proof.
   apply zsum_map_ext. apply Forall_forall. intros n _. apply ev_node.
 Qed.
 
+Lemma ev_pool_node : forall sel n, sumr (ev_pool_nodes sel n) = tot_sel (fun k => is_ev k && sel k) n.
+Proof.
+  intros sel. induction n as [i kids load IH| | | |] using node_ind'; try reflexivity.
+  - cbn [ev_pool_nodes tot_sel]. rewrite sumr_flat_map. apply zsum_map_ext. exact IH.
+  - cbn [ev_pool_nodes tot_sel is_ev andb]. destruct (sel (Ev i p)); [apply sumr_one|reflexivity].
+Qed.
+
+Lemma tot_sel_ext : forall (f g : node -> bool) n, (forall k, f k = g k) -> tot_sel f n = tot_sel g n.
+Proof.
+  intros f g n H. induction n as [i kids load IH| | | |] using node_ind'; cbn [tot_sel]; rewrite ?H; try reflexivity.
+  apply zsum_map_ext. exact IH.
+Qed.
+
+Theorem ev_pool_formula : forall roots esel,
+  eval (ev_pool_terms roots esel) = total (tot_sel (ev_sel esel)) roots.
+Proof.
+  intros roots esel. unfold ev_pool_terms, total. rewrite eval_plain, sumr_flat_map.
+  apply zsum_map_ext. apply Forall_forall. intros n _. rewrite ev_pool_node.
+  apply tot_sel_ext. intros k. unfold ev_sel. destruct (is_ev k); reflexivity.
+Qed.
+
 Theorem chp_formula : forall roots, wf roots = true ->
   exists ts, chp_terms roots = Some ts /\ eval ts = total tot_chp roots.
 Proof.
